@@ -37,8 +37,8 @@ Proof.
     + pose proof (run_list_no_panic t [] init lines) as Hp.
       destruct (fst (run_list t [] init lines)); [congruence|reflexivity|reflexivity].
   - (* the binary on an add-files script *)
-    pose proof (run_list_no_panic t (pre_list pre) [] lines) as Hp.
-    destruct (fst (run_list t (pre_list pre) [] lines)); [congruence|reflexivity|reflexivity].
+    pose proof (run_proc_no_panic t (pre_list pre) lines) as Hp.
+    destruct (fst (run_proc t (pre_list pre) lines)); [congruence|reflexivity|reflexivity].
   - (* a recipe file *)
     destruct o; try discriminate.
     destruct items as [its|].
